@@ -49,6 +49,8 @@ def random_mps(rng, L, dims, chi, deficient, alias=None, rescale=None):
         # a legal but unusual gauge: one tensor tiny, another huge (product of the scales = 1), or a state of tiny norm
         i, j = (int(x) for x in rng.choice(L, size=2, replace=False))
         f = float(10.0 ** rng.integers(6, 12))
+        if rescale == "small":  # the intermediate regime: a state of norm 1e-5 .. 1e-7 (squared weight around 1e-12)
+            f = float(10.0 ** rng.uniform(5, 7)) * float(np.sqrt(sum(np.linalg.norm(t) ** 2 for t in tens)))
         tens[i] = tens[i] * (1.0 / f)
         if rescale == "balanced":
             tens[j] = tens[j] * f
@@ -149,7 +151,8 @@ def run_case(seed, L, dims, chi, deficient, ops, alias=None, rescale=None):
             if not unit or abs(ov - nv * nw) > 1e-8 * max(nv * nw, 1e-30):
                 problems.append(f"after {op} (step {k}) the vector is not the normalised input: norm {nw:.12f}, overlap defect {abs(ov - nv * nw):.2e}")
         else:
-            tol = 1e-9 * (max(nv, 1.0) if not rescale else nv) if op[2] == "QR" or op[0] == "flip" else 1e-5 * max(nv, 1.0)
+            # SVD-based moves may drop a relative weight of 1e-12 of the block they act on; the allowance scales with the state
+            tol = 1e-9 * (max(nv, 1.0) if not rescale else nv) if op[2] == "QR" or op[0] == "flip" else 1e-5 * (max(nv, 1.0) if not rescale else nv)
             if w.shape != v.shape or np.linalg.norm(w - v) > tol:
                 problems.append(f"{op} (step {k}) changed the represented vector by {np.linalg.norm(w - v):.3e}")
         v = w
@@ -186,6 +189,15 @@ def correspond(ctx):
             exprs.append(f"let g := fold_left apply_gop {g_list([g_op(o) for o in ops])} (unknown {L}%nat) in (lf g, rf g, centres g)")
             cases.append(dict(seed=seed, L=L, dims=dims, chi=bonds, deficient=False, ops=ops, alias=None, rescale=None))
             ctx.count("uneven_bonds")
+    # corpus: states of small norm under SVD-based moves (a gauge move does not depend on the overall scale of the state)
+    for q in range(6):
+        L = 6
+        ops = [[("normalize", 0, "SVD")], [("set", 3, "SVD"), ("normalize", 0, "QR")], [("set", 5, "SVD"), ("shiftL", 5, "SVD"), ("shiftL", 4, "SVD")]][q % 3]
+        seed = int(ctx.rng.integers(0, 2**31))
+        impl.append(run_case(seed, L, [2] * L, [2, 4, 8, 4, 2], False, ops, None, "small"))
+        exprs.append(f"let g := fold_left apply_gop {g_list([g_op(o) for o in ops])} (unknown {L}%nat) in (lf g, rf g, centres g)")
+        cases.append(dict(seed=seed, L=L, dims=[2] * L, chi=[2, 4, 8, 4, 2], deficient=False, ops=ops, alias=None, rescale="small"))
+        ctx.count("rescaled_gauge")
     for k in range(ctx.scale(150, 3000)):
         L = int(ctx.rng.integers(1, 7))
         dims = [int(x) for x in ctx.rng.choice([2, 2, 3], size=L)]
@@ -204,7 +216,7 @@ def correspond(ctx):
             rescale = ["balanced", "tiny"][(k // 4) % 2]
             L = max(L, 3)
             dims = [int(x) for x in ctx.rng.choice([2, 2, 3], size=L)]
-            ops = [(o[0], min(o[1], L - 1), "QR") for o in gen_ops(ctx.rng, L)]  # SVD mode cuts by an ABSOLUTE 1e-12: not scale-free
+            ops = [(o[0], min(o[1], L - 1), o[2]) for o in gen_ops(ctx.rng, L)]  # QR and SVD moves alike: a gauge move is scale-free
             ctx.count("rescaled_gauge")
         if k % 5 == 2 and L >= 3 and not alias:  # uneven bonds, some wider than the Hilbert space on one side of them
             chi = [int(x) for x in ctx.rng.choice([1, 2, 2, 3, 4, 6, 8], size=L - 1)]
